@@ -23,8 +23,14 @@ func Serialize(root *etree.Element, l Layout, rng *rand.Rand) []byte {
 			b.WriteString("\n")
 		}
 	}
+	if l.LeadWS && !l.XMLDecl {
+		b.WriteString("\r\n  ")
+	}
 	w := &writer{b: &b, l: l, rng: rng}
 	w.element(root)
+	if l.LeadWS {
+		b.WriteString("\n<!-- trailing -->\n")
+	}
 	return b.Bytes()
 }
 
